@@ -5,7 +5,8 @@ side condition can be checked syntactically; anything else is left alone (and th
   1. a call statement `self.h(a1, .., k=ak)` to a plain method h of the same class whose body contains no `return <value>`, no `yield`
      and whose only `return`s end the body or a guard clause, is replaced by h's body with the parameters substituted - the arguments must
      be side-effect-free expressions (names, attribute chains, constants, `self.time`-arithmetic);
-  1b. a call `self.h(..)` inside an expression, h's body being a single `return <constructor call>`, is replaced by that expression;
+  1b. a call `self.h(..)` inside an expression, h's body being a single `return <constructor call>` or a chain of guard returns of
+      side-effect-free values (`if c: return A` .. `return B`, read as `A if c else B`), is replaced by that expression;
   1c. `for x in self.h(..):` / `y = self.h(..)`, h straight-line code ending in its only `return <expr>` whose locals do not occur in the
       caller: h's statements are spliced in front and the call replaced by the returned expression;
   2. `for v in (e1, .., en):` over a tuple / list literal of side-effect-free expressions is unrolled;
@@ -15,6 +16,7 @@ side condition can be checked syntactically; anything else is left alone (and th
   4b. a local bound to a comparison or a subscript and read only by the statement that immediately follows is moved into it;
   4c. a local bound once to `d[k]` (side-effect-free d, k; neither d[k], d nor their ingredients stored to afterwards) is replaced by `d[k]`;
   5b. `if c: x = A  else: x = B` becomes `x = A if c else B`;
+  5c. `d[A if c else B] = v` / `f(A if c else B)` as statements, all ingredients side-effect-free, become an `if`;
   5. `(A if c else B)[i] op= e`  becomes  `if c: A[i] op= e  else: B[i] op= e`  (c side-effect-free)."""
 import ast
 import copy
@@ -32,7 +34,22 @@ def pure(e):
     if isinstance(e, ast.BinOp) and isinstance(e.op, (ast.Add, ast.Sub)):
         return pure(e.left) and pure(e.right)
     if isinstance(e, ast.IfExp):
-        return pure(e.test) and pure(e.body) and pure(e.orelse)
+        return testpure(e.test) and pure(e.body) and pure(e.orelse)
+    if isinstance(e, ast.Tuple):
+        return all(pure(x) for x in e.elts)
+    return False
+
+
+def testpure(e):
+    """a condition without side effects: side-effect-free operands under comparisons (membership in a dict or list included), not / and / or"""
+    if pure(e):
+        return True
+    if isinstance(e, ast.Compare):
+        return all(pure(x) for x in [e.left] + list(e.comparators))
+    if isinstance(e, ast.UnaryOp) and isinstance(e.op, ast.Not):
+        return testpure(e.operand)
+    if isinstance(e, ast.BoolOp):
+        return all(testpure(v) for v in e.values)
     return False
 
 
@@ -116,14 +133,24 @@ class _InlineExpr(ast.NodeTransformer):
                 hb = _nodoc(h.body)
                 a = h.args
                 params = [x.arg for x in a.args][1:]
+                ok_sig = (not (a.vararg or a.kwarg or a.kwonlyargs or a.defaults) and len(node.args) <= len(params)
+                          and all(pure(x) for x in node.args) and all(k.arg and pure(k.value) for k in node.keywords))
+                m = dict(zip(params, node.args))
+                for k in node.keywords:
+                    m[k.arg] = k.value
                 if (len(hb) == 1 and isinstance(hb[0], ast.Return) and hb[0].value is not None and isinstance(hb[0].value, ast.Call)
-                        and not (a.vararg or a.kwarg or a.kwonlyargs or a.defaults) and len(node.args) <= len(params)
-                        and all(pure(x) for x in node.args) and all(k.arg and pure(k.value) for k in node.keywords)):
-                    m = dict(zip(params, node.args))
-                    for k in node.keywords:
-                        m[k.arg] = k.value
-                    if sorted(m) == sorted(params):
-                        return _Subst(m).visit(copy.deepcopy(hb[0].value))
+                        and ok_sig and sorted(m) == sorted(params)):
+                    return _Subst(m).visit(copy.deepcopy(hb[0].value))
+                # a chain of guard returns of side-effect-free values: `if c1: return A1 ... return B` is `A1 if c1 else ... B`
+                chain = hb[:-1]
+                if (ok_sig and sorted(m) == sorted(params) and len(hb) >= 2 and isinstance(hb[-1], ast.Return) and hb[-1].value is not None
+                        and pure(hb[-1].value)
+                        and all(isinstance(q, ast.If) and not q.orelse and len(q.body) == 1 and isinstance(q.body[0], ast.Return)
+                                and q.body[0].value is not None and pure(q.body[0].value) and testpure(q.test) for q in chain)):
+                    e = copy.deepcopy(hb[-1].value)
+                    for q in reversed(chain):
+                        e = ast.IfExp(test=copy.deepcopy(q.test), body=copy.deepcopy(q.body[0].value), orelse=e)
+                    return _Subst(m).visit(e)
         return node
 
 
@@ -392,6 +419,36 @@ def ref_aliases(body):
             out.append(s)
         return out
     return go(body, {})
+
+
+def split_ifexp(body):
+    """step 5c: `d[A if c else B] = v` and `f(A if c else B)` as a statement, with c a side-effect-free condition and every other
+    ingredient side-effect-free, become `if c: <stmt with A> else: <stmt with B>`"""
+    out = []
+    for s in body:
+        site = None
+        if isinstance(s, ast.Assign) and len(s.targets) == 1 and isinstance(s.targets[0], ast.Subscript) \
+                and isinstance(s.targets[0].slice, ast.IfExp) and pure(s.targets[0].value) and pure(s.value):
+            site = ("slice", s.targets[0].slice)
+        elif isinstance(s, ast.Expr) and isinstance(s.value, ast.Call) and len(s.value.args) == 1 and not s.value.keywords \
+                and isinstance(s.value.args[0], ast.IfExp) and pure(s.value.func):
+            site = ("arg", s.value.args[0])
+        if site and testpure(site[1].test) and pure(site[1].body) and pure(site[1].orelse):
+            def arm(v):
+                q = copy.deepcopy(s)
+                if site[0] == "slice":
+                    q.targets[0].slice = copy.deepcopy(v)
+                else:
+                    q.value.args[0] = copy.deepcopy(v)
+                return q
+            out.append(ast.fix_missing_locations(ast.If(test=copy.deepcopy(site[1].test), body=[arm(site[1].body)], orelse=[arm(site[1].orelse)])))
+            continue
+        if isinstance(s, (ast.If, ast.For)):
+            s = copy.deepcopy(s)
+            s.body = split_ifexp(s.body)
+            s.orelse = split_ifexp(s.orelse)
+        out.append(s)
+    return out
 
 
 def split_cells(body):
